@@ -1128,7 +1128,12 @@ func (f *Frame) goStmt(x *ssa.Go, st *State) {
 	for _, a := range x.Call.Args {
 		args = append(args, f.val(a))
 	}
-	f.siteHook("go", x, st, nil)
+	goExtra := map[string]Value{}
+	for i, a := range args {
+		a.Ty = x.Call.Args[i].Type()
+		goExtra[fmt.Sprintf("arg%d", i)] = a
+	}
+	f.siteHook("go", x, st, goExtra)
 	// precondition of the spawned function is checked at the spawn
 	if fn, ok := x.Call.Value.(*ssa.Function); ok {
 		if fc := f.u.eng.contractOf(fn); fc != nil && len(fc.Requires) > 0 {
@@ -1143,7 +1148,7 @@ func (f *Frame) recvOp(x *ssa.UnOp, st *State) Value {
 	ct := x.X.Type().Underlying().(*types.Chan)
 	v := u.sc.fresh("recv", u.te.sortOf(ct.Elem()))
 	u.assume(st.reach, u.wf(v, ct.Elem(), st.wm))
-	f.siteHook("recv", x, st, nil)
+	f.siteHook("recv", x, st, map[string]Value{"chan": f.val(x.X)})
 	if x.CommaOk {
 		return Value{Tuple: []Value{{T: v, Ty: ct.Elem()}, {T: u.sc.fresh("recvok", SBool), Ty: types.Typ[types.Bool]}}, Ty: x.Type()}
 	}
@@ -1159,7 +1164,11 @@ func (f *Frame) selectOp(x *ssa.Select, st *State) Value {
 		lo = -1
 	}
 	u.assume(st.reach, bvInRange(bv64(lo), idx, bv64(int64(len(x.States)-1))))
-	f.siteHook("select", x, st, nil)
+	selExtra := map[string]Value{"index": {T: idx, Ty: types.Typ[types.Int]}}
+	for i, sst := range x.States {
+		selExtra[fmt.Sprintf("chan%d", i)] = f.val(sst.Chan)
+	}
+	f.siteHook("select", x, st, selExtra)
 	// every send case of the select is a release site of its own
 	for _, sst := range x.States {
 		if sst.Dir == types.SendOnly {
@@ -1369,6 +1378,22 @@ func (f *Frame) siteMatches(s *SiteSpec, kind string, ins ssa.Instruction) bool 
 	case "send", "recv", "close", "store", "mapupdate", "mapdelete":
 		if target != "" && !f.siteOperandMatches(ins, target) {
 			return false
+		}
+	case "select":
+		// `select X`: a select statement with a case on channel X (first case matching decides chanK order)
+		if sel, ok := ins.(*ssa.Select); ok && target != "" {
+			hit := false
+			saved := f.siteChan
+			for _, sst := range sel.States {
+				f.siteChan = sst.Chan
+				if f.siteOperandMatches(ins, target) {
+					hit = true
+				}
+			}
+			f.siteChan = saved
+			if !hit {
+				return false
+			}
 		}
 	}
 	if kind == "after" {
